@@ -31,7 +31,7 @@ Failed(t) ==
          [] c = "clique_with_two_ids" -> \E x, y \in labs : x # y /\ SetOf(x[2]) = SetOf(y[2])
          [] c = "not_greedy_maximal" -> ~GreedyMaximal(gr, cv, t.limit)}
 
-TInit == tid = 0 /\ n = 0 /\ g = {} /\ limit = 0 /\ remaining = {} /\ claimed = {} /\ cover = {} /\ phase = "judge"
+TInit == tid = 0 /\ n = 0 /\ g = {} /\ limit = 0 /\ remaining = {} /\ claimed = {} /\ cover = {} /\ phase = "judge" /\ covers = 0
 TNext == /\ tid < Len(Traces) /\ tid' = tid + 1
          /\ LET f == Failed(Traces[tid']) IN
             PrintT("VERDICT " \o ToJson([tid |-> tid', v |-> IF f = {} THEN "ok" ELSE "violation:" \o (CHOOSE c \in f : TRUE), failed |-> f]))
